@@ -15,6 +15,9 @@ def plan(tier, seed):
         builds=[("asan", "c20")],
         shards=[dict(bin=("asan", "c20"), args=args) for _ in range(nshards)],
         timeout=1200 if quick else 3 * 3600,
+        # malloc_context_size: with the default (30 frames) ASan's stack depot grows by ~13 kB per rapidcheck case
+        # (0.9 GB per shard after 25 000 cases, would be 16 GB per thorough shard); 3 frames keep it flat at 140 MB.
+        env={"ASAN_OPTIONS": "abort_on_error=1:detect_leaks=0:allocator_may_return_null=1:malloc_context_size=3:quarantine_size_mb=64"},
         rule=("constraint systems decoded from the choice stream as the sequence of public CspSolver calls "
               "(addVariable/makeEven/makeOdd/addMinVal/addMaxVal/addIneq/addEq/solve, some with a second solve after "
               "further calls): 0-14 variables with ranges inside [-16,47], all four PrefVal orders, 0-25 constraints "
